@@ -26,6 +26,10 @@ EXC_NAMES = {1 << 0: "CODE_AUTOMOD", 1 << 1: "SOFT_BP", 1 << 2: "INT_XX", 1 << 3
              1 << 25: "DO_NOT_UPDATE_PC"}
 
 
+PC_REGS = {"x86_16": "RIP", "x86_32": "RIP", "x86_64": "RIP", "arml": "PC", "armtl": "PC", "aarch64l": "PC",
+           "mips32l": "PC", "mips32b": "PC", "ppc32b": "PC", "msp430": "PC", "mepl": "PC", "mepb": "PC"}
+
+
 def flag_names(v):
     if not isinstance(v, int):
         return repr(v)
@@ -128,6 +132,10 @@ def locate(lab, case):
             return None, ""
         seqs[backend] = [e for e in obs["events"] if e[0] == "ecb"]
     a, b = seqs["python"], seqs["gcc"]
+    pcreg = PC_REGS.get(case["arch"])
+    for seq in (a, b):
+        for e in seq:
+            e[2].pop(pcreg, None)       # the program-counter register has its own bucket (pc-register-only)
     for i in range(min(len(a), len(b))):
         if a[i][1] != b[i][1] or a[i][2] != b[i][2]:
             if i == 0:
@@ -214,6 +222,13 @@ def judge(lab, case, res=None, want_locate=True):
             what = "mem"
         elif what.startswith("page "):
             what = "page"
+        pcreg = PC_REGS.get(arch)
+        if all(x.startswith("reg %s:" % pcreg) for x in d):
+            # the program-counter *register* only (jitter.pc agrees): refreshed at different moments by the backends
+            fails.append(("%s|state|pc-register-only" % prefix,
+                          "only the %s register differs (python vs gcc) while jitter.pc agrees: %s, termination %s"
+                          % (pcreg, d[0], term_desc(py))))
+            return fails, info
         mn, ldet = (None, "")
         if want_locate and not fault:
             mn, ldet = locate(lab, case)
@@ -271,6 +286,8 @@ class C20(Check):
                    "programs are integer-only (no floating point, documented as unsupported by the python backend) "
                    "and do not use MeP REPEAT (implemented by the gcc code generator only)",
                    "log_mn is enabled on the python run only (to count executed instructions); it only prints",
+                   "the two extra breakpoints are never put on a MIPS delay-slot instruction (splitting a block "
+                   "there loses the branch in both backends: recorded under C21/C23)",
                    "the host-compiled expected value is recorded as a counter, it is not part of the verdict"]
     level_text = ("differential execution of generated and fixed machine-code programs on both available backends in "
                   "separate worker processes, including faulting memory maps")
@@ -296,6 +313,15 @@ class C20(Check):
                 if not first_trace:
                     continue
                 cnt = collections.Counter(first_trace)
+                if arch.startswith("mips"):
+                    # never on a delay slot (the block split there loses the branch: C21/C23 finding): drop every
+                    # address that is followed by a non-sequential transfer somewhere in the trace
+                    for x, y in zip(first_trace, first_trace[1:]):
+                        if y != x + 4:
+                            cnt.pop(x, None)
+                    cnt.pop(first_trace[-1], None)
+                    if not cnt:
+                        continue
                 hot = max(sorted(cnt), key=lambda a: cnt[a])
                 distinct = sorted(cnt)
                 mid = distinct[len(distinct) // 2]
@@ -349,7 +375,7 @@ class C20(Check):
         mine = [u for i, u in enumerate(units) if i % nshards == shard]
         nrand = 12 if tier == "thorough" else 3
         rng = random.Random(seed)
-        with jitlab.JitLab(time_limit=900) as lab:
+        with jitlab.JitLab(time_limit=600 if tier == "thorough" else 300) as lab:
             wd = lab.workdir()
             # deterministic stratum, grouped per (arch, opt) so that one clang run serves the group
             groups = collections.OrderedDict()
@@ -402,7 +428,7 @@ class C20(Check):
 
     # -- replay / shrink ---------------------------------------------------------------------
     def replay(self, case):
-        with jitlab.JitLab(time_limit=900) as lab:
+        with jitlab.JitLab(time_limit=600) as lab:
             fails, info = judge(lab, case)
         if not fails:
             return None
@@ -416,7 +442,7 @@ class C20(Check):
         """Inputs towards zero while the bucket is kept (programs themselves are compiler output)."""
         case = dict(failure.case)
         best = failure
-        with jitlab.JitLab(time_limit=900) as lab:
+        with jitlab.JitLab(time_limit=600 if tier == "thorough" else 300) as lab:
             for field, val in (("arr", [0] * 8), ("args", [0, 0, 0]), ("bps", [])):
                 if case.get(field) in (val, None):
                     continue
